@@ -31,13 +31,11 @@ fuzz_target!(|data: &[u8]| {
     if data.is_empty() {
         return;
     }
-    let opt = data[0] & 3;
     let text = &data[1..];
     if include_escapes(text) {
         return;
     }
-    let mut o = Opts::o(opt);
-    o.filename = "main.c".into();
+    let o: Opts = vengine::checks::c16::opts_of(data[0] & 15);
     match cc::compile_bytes(text, &o) {
         Outcome::Ok(_) => {}
         Outcome::Err(e) => {
